@@ -283,6 +283,8 @@ macro_rules! est_quantile {
 est_quantile!(QMedian, 0.5, "Quantile(0.5)");
 est_quantile!(Q90, 0.9, "Quantile(0.9)");
 est_quantile!(Q01, 0.01, "Quantile(0.01)");
+est_quantile!(QMin, 0.0, "Quantile(0)");
+est_quantile!(QMax, 1.0, "Quantile(1)");
 
 /// Histogram over a fixed, finite edge vector per LEN (empty = same edges, zero counts).
 #[derive(Clone)]
@@ -437,7 +439,7 @@ pub const MERGE_TYPES: &[&str] = &[
     "Mean", "Variance", "Skewness", "Kurtosis", "Moments4", "M6", "M10", "Min", "Max", "WeightedMean", "WeightedMeanWithError", "Covariance", "Histogram<3>", "Histogram<10>",
 ];
 pub const SERDE_TYPES: &[&str] = &[
-    "Mean", "Variance", "Skewness", "Kurtosis", "Moments4", "M6", "M10", "Min", "Max", "Quantile(0.5)", "Quantile(0.9)", "Quantile(0.01)", "WeightedMean", "WeightedMeanWithError", "Covariance", "Histogram<3>", "Histogram<10>", "Histogram<100>", "HistogramCW<10>(0,1)", "HistogramCW<3>(-1,1)",
+    "Mean", "Variance", "Skewness", "Kurtosis", "Moments4", "M6", "M10", "Min", "Max", "Quantile(0.5)", "Quantile(0.9)", "Quantile(0.01)", "Quantile(0)", "Quantile(1)", "WeightedMean", "WeightedMeanWithError", "Covariance", "Histogram<3>", "Histogram<10>", "Histogram<100>", "HistogramCW<10>(0,1)", "HistogramCW<3>(-1,1)",
 ];
 pub const INGEST_TYPES: &[&str] = &["Mean", "Variance", "Skewness", "Kurtosis", "Moments4", "M6", "Min", "Max", "WeightedMean", "WeightedMeanWithError", "Covariance"];
 
@@ -473,6 +475,8 @@ macro_rules! est_dispatch {
             "Quantile(0.5)" => Some($f::<QMedian>($($a),*)),
             "Quantile(0.9)" => Some($f::<Q90>($($a),*)),
             "Quantile(0.01)" => Some($f::<Q01>($($a),*)),
+            "Quantile(0)" => Some($f::<QMin>($($a),*)),
+            "Quantile(1)" => Some($f::<QMax>($($a),*)),
             "Histogram<3>" => Some($f::<HW<$crate::h3::Histogram>>($($a),*)),
             "Histogram<10>" => Some($f::<HW<$crate::h10::Histogram>>($($a),*)),
             "Histogram<100>" => Some($f::<HW<$crate::h100::Histogram>>($($a),*)),
